@@ -19,7 +19,7 @@ def id_of_int(n):
 def gen_vars(rng, nvars=None, style=None):
     """returns list of (id bytes, type string)"""
     nvars = nvars or rng.choice([1, 2, 3, 5, 8])
-    style = style or rng.choice(["dense", "dense", "dense", "offset", "sparse", "long", "weird"])
+    style = style or rng.choice(["dense", "dense", "dense", "offset", "sparse", "long", "weird", "wrap"])
     ids = []
     if style == "dense":
         ids = [id_of_int(i) for i in range(nvars)]
@@ -29,6 +29,10 @@ def gen_vars(rng, nvars=None, style=None):
         ids = list(dict.fromkeys(ids))
     elif style == "sparse":
         ids = list(dict.fromkeys(id_of_int(rng.randint(0, 8000)) for _ in range(nvars)))
+    elif style == "wrap":
+        # a code of 10+ characters whose base-94 value is 2^64 + k: with wrapping arithmetic it would collide with code k
+        ids = [id_of_int(i) for i in range(max(1, nvars - 1))]
+        ids.append(id_of_int(2 ** 64 * rng.choice([1, 1, 2]) + rng.randint(0, max(1, nvars - 1))))
     elif style == "long":
         ids = list(dict.fromkeys("".join(rng.choice(IDCHARS) for _ in range(rng.choice([4, 5, 6, 12]))) for _ in range(nvars)))
     else:
